@@ -88,11 +88,23 @@ Fixpoint add_tols (t : tols) (evs : list sev) : tols :=
   | _ :: evs' => add_tols t evs'
   end.
 
+(** the price service's answer: the code exactly, the data within the tolerance of the batch that
+    produced the feed's newest value (the model's stored value may differ from the float64 result
+    inside the guard band) *)
+Definition price_corr (t : tols) (s : state) (now n code d : Z) : bool :=
+  let '(mc, md) := price_request s now n in
+  (mc =? code)
+  && match get n (feeds s), rev (feed_vals s n) with
+     | Some f, (bc, _) :: _ => data_close (tol_of t (f_ctx f) bc) md d
+     | _, _ => md =? d
+     end.
+
 Definition corr_step (t : tols) (s : state) (st : step) (o : obs) : bool :=
   let '(oc, s') := exec s st in
   match snd st with
   | OSvc evs => (if eqb oc Ok then negb (o_code o =? 2) else (o_code o =? outcome_code oc))
                 && sevs_consistent s (fst st) evs
+  | OPrice n code d => (o_code o =? 0) && price_corr t s (fst st) n code d
   | _ => o_code o =? outcome_code oc
   end
   && forallb (corr_feed t s') (o_feeds o).
@@ -106,7 +118,8 @@ Definition corr_step (t : tols) (s : state) (st : step) (o : obs) : bool :=
        an edit did not keep exactly the newest latest-history values / more than latest-history kept
     4  running/paused index does not mirror the service context
     5  somebody other than the creator started, paused or edited the feed
-    6  the values changed although no batch completed with its threshold met (or the other way round) *)
+    6  the values changed although no batch completed with its threshold met (or the other way round)
+    7  the price service did not answer with the newest stored value / its expiry by block time *)
 
 Definition ventry := (Z * Z * Z * bool)%type.    (* data, time, tolerance, fresh *)
 
@@ -199,8 +212,19 @@ Definition prop_feed (prev : list (Z * fobs)) (st : step) (code : Z) (nf : Z * f
 Fixpoint first_nonzero (l : list Z) : Z :=
   match l with [] => 0 | x :: l' => if x =? 0 then first_nonzero l' else x end.
 
+(** the price service, on the implementation's own previous observation of the feed *)
+Definition price_prop (prev : list (Z * fobs)) (st : step) : Z :=
+  match snd st with
+  | OPrice n code d =>
+      let po := match fobs_of prev n with Some p => p | None => empty_fobs end in
+      let exists_ := match fo_feed po with Some _ => true | None => false end in
+      if eqb (price_answer exists_ (fo_vals po) (fst st)) (code, d) then 0 else 7
+  | _ => 0
+  end.
+
 Definition prop_step (prev : list (Z * fobs)) (st : step) (o : obs) : Z :=
-  first_nonzero (map (prop_feed prev st (o_code o)) (o_feeds o)).
+  let p := price_prop prev st in
+  if p =? 0 then first_nonzero (map (prop_feed prev st (o_code o)) (o_feeds o)) else p.
 
 Fixpoint check_from (s : state) (t : tols) (prev : list (Z * fobs)) (c : case) (i : Z) (corr prop code : Z) : Z * Z * Z :=
   match c with
